@@ -572,7 +572,9 @@ pub fn check_c18(ex: &mut Exec, at: usize, t: &SemTarget) {
         if !text[line_start..a].is_ascii() {
             ex.stats.probe("rename_on_multibyte_line");
         }
-        let new_name = if old.starts_with('@') { format!("@zz_fresh{n}") } else { format!("zz_fresh{n}") };
+        // fresh names, half of them with the identifier characters `-` and `$`
+        let stem = if n % 2 == 0 { format!("zz_fresh{n}") } else { format!("zz-fr$h{n}") };
+        let new_name = if old.starts_with('@') { format!("@{stem}") } else { stem };
         let edits = ex.peer.send_request(ReqKind::Rename, path, *pos, Some(&new_name));
         ex.stats.count("requests_checked", 1);
         ex.stats.count("renames_checked", 1);
